@@ -7,21 +7,24 @@ def register(PROPS):
                      'the oracle is the text form itself (ISO 8601 / RFC 5545 rendering and a 30-line duration reader written from the grammar)',
         'claim': 'For every value listed under "bound": dt_strf and dt_strf_ical write the ISO 8601 resp. RFC 5545 text of the instant; that text and six '
                  'further spellings (with Z, blank instead of T, without separators, mixed, basic form with fraction) parse back with dt_strp to the same '
-                 'instant, with and without an explicit length; range_strf -> range_strp is the identity; idiff_strf writes a valid ISO 8601 duration '
+                 'instant, with and without an explicit length, and dt_strp hands back the end of the text as the end of what it read (a trailing Z included; clause dt-end) for all 8 forms; range_strf -> range_strp is the identity; idiff_strf writes a valid ISO 8601 duration '
                  'of the same value which idiff_strp reads back (also when the text is followed by CR LF as in a content line); every listed spelling of a '
                  'duration, with and without a leading +, is read completely and as the same number of milliseconds; printing what was parsed parses to '
-                 'the same value again.',
+                 'the same value again.  End to end (c18_zoned): zoned recurring events (12 zones x 16 local dates of 2015 x 6 times of day x 6 schedules: DAILY, WEEKLY with DTEND, MONTHLY, '
+                 'DAILY;INTERVAL=3, WEEKLY;INTERVAL=2;UNTIL, YEARLY) go text -> parser -> echs_task_icalify -> parser -> echs_task_icalify -> parser; the printer writes DTSTART;TZID=zone:<local>Z, '
+                 'and all three generations must give the same occurrences (start and duration).',
         'note': 'A duration counts as read iff the end pointer handed back reaches the end of the text - the test the only caller (evical.c, DURATION) applies. '
                 'The sanitizer variant hands every text to the parsers in a heap cell of exactly its size.  Instants are enumerated at day level completely, '
                 'times of day completely on 8 days (quick) / on the first of every month (thorough).',
         'rule': 'a case is one (year, month), (day, hour), block of durations or (w,d,h) prefix whose remaining values are looped inside; evaluations count '
                 'instants, ranges and duration texts, all distinct by construction; non-trivial = every instant, every range with beg != end, every duration text '
-                'of a non-zero duration',
+                'of a non-zero duration; c18_zoned: a case is one event, evaluations count parses, non-trivial = the written text still carries the TZID',
         'bound': {
             'quick': 'dt: every day 1901-2099 x {all-day, 00:00:00, 23:59:59, 12:34:56.789, 00:00:00.000, 23:59:59.999} x 8 text forms x {len, no len}; '
                      'dt-times: every second of 8 days x ms {none,0,1,9,10,99,100,789,999}; range: every start day x 6 instants x end {same day, +1, +31, +366 d, '
                      '2099-12-31} x 6 instants, and open end; durations: every whole second 0..200000 in 5-6 spellings, every whole day 0..4000 '
-                     '(+0/1/3599/3600/86399 s) in 2-3 spellings, every (w<=3, d<=9, h<=25, m<=61, s<=61) with every way of writing or leaving out zero parts; all with and without +',
+                     '(+0/1/3599/3600/86399 s) in 2-3 spellings, every (w<=3, d<=9, h<=25, m<=61, s<=61) with every way of writing or leaving out zero parts; all with and without +; '
+                     'zoned: 6912 events (12 zones x 16 dates x 6 times x 6 schedules) x 3 generations',
             'thorough': 'as quick, with whole seconds 0..20000000 (crossing 2^32 ms), whole days 0..400000, and every second of the first day of every month 1901-2099',
         },
         'drivers': [
@@ -35,6 +38,8 @@ def register(PROPS):
             D('c18_strpf', ['mode=dt'], label='dt-asan', variant='asan', shards=8),
             D('c18_strpf', ['mode=dur-days', 'max=4000'], label='dur-days-asan', variant='asan', shards=4),
             D('c18_strpf', ['mode=dur-secs', 'max=20000'], label='dur-secs-asan', variant='asan', shards=4),
+            D('c18_zoned', [], label='zoned-print-parse', shards=4),
+            D('c18_zoned', [], label='zoned-print-parse-asan', variant='asan', shards=4),
         ],
         'assumptions': [
             'durations are whole seconds: neither the RFC 5545 dur-value grammar nor idiff_strf/idiff_strp have a fraction, so millisecond residues are outside the text form '
@@ -45,5 +50,8 @@ def register(PROPS):
             'the iCalendar form has second resolution: an instant with milliseconds must parse back from it to the same second, whole-second marker set',
             'instants are UTC, so the iCalendar DATE-TIME is form 2 (trailing Z); dt_strp must accept the text with or without Z',
             'ranges are judged for two proper instants and for an open end ("beg+"); the forms with an unbounded start and "*" are not',
+            'c18_zoned needs no reference (the same event read three times must agree with itself); RDATE and EXDATE lists are left out because the printer does not write them '
+            '(known under C05: remaining/RDATE, remaining/EXDATE), BY* rule parts because they are evaluated on the UTC calendar day of DTSTART (known under C07) and the printer '
+            'writes the next occurrence as the new DTSTART',
         ],
     }
